@@ -67,11 +67,11 @@ CHECKS = {
   note="Trusted: Lean kernel + standard axioms; hand models of the dispatcher and of the component classes tied by differential correspondence; known finding F8d (StackableBuffSkillComponent, latent: shipped cooldown 0).",
   technique="Lean 4 proof (dispatcher for arbitrary reducers + per-class reducer lemmas) + dispatcher-proxy exploration"),
  "C08": dict(
-  category="other",
-  text="Partial by nature: a functional model cannot exhibit object mutation. PROVED in Lean for the dispatcher with an arbitrary reducer and arbitrary entities: it writes no address outside the component's bound addresses (frame) and its events and written values are a function of the bound entities; views are functions of the bound entities. DECIDED by observation: every reducer and view call harvested from real runs of all jobs is replayed as a direct call twice on the same argument objects and once on deep copies; argument dumps must not change and results must be equal.",
-  design_ref="DESIGN.md §4 C08",
-  note="Frame theorems trusted as usual; object mutation and repeatability are observed on harvested calls, not proved.",
-  technique="Lean 4 frame theorems + harvested-call replay (observation)"),
+  category="proof",
+  text="Lean 4 proof over programs REGENERATED from the source on every run: tools/py2lean/gen_effects.py lowers every reducer and view method of every shipped component class (316 methods; trait functions, component helpers, entity methods, properties, generators, ignore_rejected, NamedEventProvider and Stat/ActionStat arithmetic inlined) to an object-heap effect IR (Model/Effect.lean: deepcopy, allocation, load, store, non-deterministic control flow, abort for raise). Proofs/Effect.lean proves the effect checker sound: a program it accepts, started on ANY heap with ANY arguments, at EVERY point of the call (also where an exception ends it) has left every pre-existing object exactly as it was and has stored only into objects allocated during the call; a result derived fresh shares no object with anything that existed before. Props/C08_Effects*.lean run the checker inside the kernel on every generated program (one listed path-correlated method, AdeleStormComponent.use, is outside the discipline and decided by observation only). Also proved: the dispatcher's frame for an arbitrary reducer (Props/C08.lean). Repeatability (same in, same out) is observed on every reducer/view call harvested from real runs of all jobs (replayed twice on the same objects and once on deep copies) and holds by construction in the functional L2 models tied by C07/C09/C10. Each harvested call is also compared with its effect program: observed (entity, field) changes must be stores of the program, results derived fresh must share no mutable object (by identity) with the arguments or the component, fields the translator treats as immutable must hold immutable values.",
+  design_ref="DESIGN.md §4 C08, §9.7",
+  note="Trusted: Lean kernel + standard axioms; the lowering Python AST -> effect IR (over-approximation, validated against every harvested call); CPython/pydantic deepcopy semantics (IsDeepCopy, observed by identity walks); static-type classification immutable/mutable (validated on harvested objects). Repeatability itself is observed, not proved, at the Python level.",
+  technique="Lean 4 proof (sound effect checker + kernel evaluation on programs regenerated from the source) + correspondence on harvested calls"),
  "C14": dict(
   category="proof",
   text="Lean 4 theorems at character level over a hand-written lexer/parser for the plan DSL (following the Lark grammar incl. its Earley/dynamic-lexer behaviour): parse_render (every operation re-parses from its expr to itself), produced_in_range/reparse_of_parsed (every operation the parser returns re-parses), multiplier semantics, layout_irrelevant_partial for the explicit good-layout class + layout_rejected/never_changes_commands for everything else, body/plan round trip. Number printing and YAML are hypotheses sampled per run. The model is compared with the real Lark parser on tens of thousands of generated texts; re-parsed plans are executed on the real engine.",
